@@ -80,6 +80,7 @@ RULE = ('Part A: workloads.single_assembly / core_problem over seeds plus '
         'small bundles of 2-4 rings, 0.5 m); thorough: 1200 singles, 100 '
         'cores (up to 19 assemblies), options x 24, mutators x 24 on bases '
         'of 2-6 rings, plus the -inf literals.')
+RULE += (' Later rounds added: legacy gap key faults, nan/inf literals inside lists, cores with an unassigned inner position, faults in the power table of a later assembly of a type, a second set-up of every accepted input.')
 DECIDING = ['A_valid_input_runs', 'B_base_input_runs',
             'B_invalid_input_rejected', 'B_accepted_input_runs']
 CASE_TIMEOUT = {'quick': 120, 'thorough': 400}
